@@ -2,11 +2,18 @@
 //!
 //! `C20.dot <bdd> <names> <pruned> => x<hex of the text> <=|x<hex>>` — the first observation is
 //! `to_dot_string`, the second `write_as_dot_string` into a `Vec<u8>` (`=` when it is the same text).
+//! `C20.write <bdd> <names> <pruned> <script> => x<hex of to_dot_string> <ok|err|panic> <=|x<hex of the bytes that reached the sink>>`
+//! exports through `write_as_dot_string` into a scripted sink (`serial_io::SWriter`: every `write` call consumes one
+//! event: `gK` accept at most K bytes, `i` Interrupted, `e` hard error; a final `*K` = every further call accepts at
+//! most K bytes; an exhausted script accepts everything).
 //! Names travel hex-encoded (`h<utf8 bytes>`, lists joined by `,`, the empty list is `~`).
 #[path = "../common.rs"]
 mod common;
+#[path = "../serial_io.rs"]
+mod serial_io;
 use biodivine_lib_bdd::*;
 use common::*;
+use serial_io::{Ev, SWriter};
 
 fn s(x: &str) -> String { x.to_string() }
 
@@ -56,7 +63,11 @@ pub fn run(key: &str, a: &[String], out: &mut Out) {
 }
 
 fn name_sets(n: usize) -> Vec<Vec<String>> {
-    let pools: [&[&str]; 5] = [
+    let pools: [&[&str]; 7] = [
+        // legal names (only `! & | ^ = < > ( ) ? :` are forbidden): TAB, no-break space, a combining mark, a zero-width
+        // joiner sequence, control characters, CJK, BOM, leading/trailing blanks, the Unicode line separator
+        &["a\tb", "\u{a0}x", "e\u{301}", "\u{1f469}\u{200d}\u{1f469}", "\u{1}", "x\u{7f}", "\u{65e5}\u{672c}", "\u{feff}z", " lead", "trail "],
+        &["\u{2028}", "\u{200d}", "\u{301}", "\t", "\u{a0}", "a\u{200b}b", "\u{202e}rtl", "\u{1f600}", "\u{c}", "ｆｕｌｌ"],
         &["a", "b", "c", "d", "e", "f", "g", "h", "i", "j"],
         &["x_0", "x_1", "x_2", "x_3", "x_4", "x_5", "x_6", "x_7", "x_8", "x_9"],
         &["v 1", "é", "a.b-c", "", "0", "1", "--", "[label]", "init__", ";"],
@@ -80,7 +91,7 @@ pub fn gen(tier: Tier, rng: &mut Rng64, out: &mut Out) {
         for t in 0..count {
             let b = fmt_bdd(&bdd_of_tt(n, &tt_from_index(n, t)));
             for (i, names) in sets.iter().enumerate() {
-                if thorough || n < 3 || i < 2 || rng.chance(1, 4) { both(&b, names, out); }
+                if thorough || n < 3 || i < 3 || rng.chance(1, 3) { both(&b, names, out); }
             }
         }
     }
@@ -119,9 +130,39 @@ pub fn gen(tier: Tier, rng: &mut Rng64, out: &mut Out) {
         }
         both(&fmt_triples(&nodes), &names, out);
     }
+    // --- export through `write_as_dot_string` into a scripted sink: chunk sizes 1, 7, 4096, whole; interruptions;
+    //     hard errors and zero-length writes placed before the text can be exhausted (so that they are reached
+    //     whatever pieces `write_fmt` hands to `write_all`)
+    {
+        let ok_scripts = ["~", "*1", "*7", "*4096", "i.*3", "g5.i.i.g1.*2", "i.i.i"];
+        let bad_scripts = ["e", "g3.e", "g1.g1.g1.e", "i.e", "g0", "g4.i.g0", "*1.e"];
+        let small: u64 = if thorough { 256 } else { 24 };
+        for i in 0..small {
+            let t = if thorough { i } else { rng.below(256) };
+            let b = fmt_bdd(&bdd_of_tt(3, &tt_from_index(3, t)));
+            let sets = name_sets(3);
+            let names = rng.pick(&sets[..]).clone();
+            for p in ["0", "1"] {
+                for sc in ok_scripts.iter().chain(bad_scripts.iter()) {
+                    if *sc == "*1.e" { continue; }
+                    run("C20.write", &[b.clone(), enc_names(&names), s(p), s(sc)], out);
+                }
+            }
+        }
+        // one large diagram: a chain over 900 variables, more than 30 KiB of text
+        let n = 900usize;
+        let names: Vec<String> = (0..n).map(|i| format!("n{}", i)).collect();
+        let mut nodes = vec![(n, 0, 0), (n, 1, 1)];
+        for i in (0..n).rev() { let root = nodes.len() - 1; nodes.push(if i % 3 == 0 { (i, root, 0) } else { (i, 0, root) }); }
+        let big = fmt_triples(&nodes);
+        for sc in ["~", "*1", "*7", "*4096", "i.g100.i.*1000", "g30000.e", "g4096.g4096.g0", "*9.i"] {
+            run("C20.write", &[big.clone(), enc_names(&names), s("0"), s(sc)], out);
+        }
+        run("C20.write", &[big.clone(), enc_names(&names), s("1"), s("*4096")], out);
+    }
     // --- malformed stream: labels that need escaping (the export does not escape), name count mismatch,
     //     a decision node whose variable has no name
-    let weird: [&[&str]; 4] = [&["a\"b", "c"], &["a\\", "b"], &["li\nne", "b"], &["\"", "\\\""]];
+    let weird: [&[&str]; 5] = [&["a\"b", "c"], &["a\\", "b"], &["li\nne", "b"], &["\"", "\\\""], &["c\rr", "b"]];
     for names in weird {
         let names: Vec<String> = names.iter().map(|x| x.to_string()).collect();
         for t in 0..16u64 { both(&fmt_bdd(&bdd_of_tt(2, &tt_from_index(2, t))), &names, out); }
